@@ -60,6 +60,8 @@ class S:
         for t in (T1, T2):
             w.trait(t)
         w.trait('CUSTOM_T3')               # never associated
+        w.trait('CUSTOM_A_B')              # names that only differ where
+        w.trait('CUSTOM_AXB')              # SQL LIKE has a wildcard
         w.trait('HW_CPU_X86_AVX')          # a standard trait
         w.agg(1)
         w.agg(2)
@@ -193,7 +195,8 @@ def read_provider_list(ctx, s):
 def read_catalogue(ctx, s):
     """traits and resource classes: listing with filters, single reads"""
     m = to_z3(ctx.data['minor'])
-    known = {T1, T2, 'CUSTOM_T3', 'HW_CPU_X86_AVX'}
+    known = {T1, T2, 'CUSTOM_T3', 'HW_CPU_X86_AVX', 'CUSTOM_A_B',
+             'CUSTOM_AXB'}
     assoc = {T1: s.tr[(1, T1)], T2: s.tr[(2, T2)]}
     for q, want in (
             ('', {t: True for t in known}),
@@ -204,7 +207,12 @@ def read_catalogue(ctx, s):
                                            'CUSTOM_T3': True}),
             ('?name=in:%s,HW_CPU_X86_AVX' % T1, {T1: True,
                                                  'HW_CPU_X86_AVX': True}),
-            ('?name=startswith:CUSTOM_T&associated=true', dict(assoc))):
+            ('?name=startswith:CUSTOM_T&associated=true', dict(assoc)),
+            # a prefix is a literal string: _ and % stand for themselves
+            ('?name=startswith:CUSTOM_A_B', {'CUSTOM_A_B': True}),
+            ('?name=startswith:CUSTOM_A%25', {}),
+            ('?name=startswith:CUSTOM_A', {'CUSTOM_A_B': True,
+                                           'CUSTOM_AXB': True})):
         r = app.call('GET', '/traits' + q, version='sym')
         if r.status != 200:
             obligation(ctx, 'traits-repr', m >= 6,
